@@ -21,7 +21,7 @@ STUBS = ["np.linalg.pinv (4x4) and np.linalg.solve -> exact inverse by adjugate 
 OUTSIDE = ["find_contact_surface on factory meshes (hundreds of tetrahedra x 28 half-plane pairs each)", "rounding"]
 BOUNDS = {"quick": "5 tetrahedron pairs from the corpus x 6 one-parameter sweeps (translations incl. axis-aligned stacking, rotations), Young's moduli {1e-2,1,1e2}, both argument orders",
           "thorough": "all corpus pairs x all sweeps x moduli"}
-WALL_BUDGET = {"quick": 360, "thorough": 2400}
+WALL_BUDGET = {"quick": 360, "thorough": 900}
 EXPECTED_EXCEPTIONS = ()
 
 # corpus tetrahedra (dyadic) with linear potentials
@@ -165,7 +165,10 @@ class TetPair(Scenario):
                 ex = AND(AND(*[OR(*[vec_eq(a, b) for b in v2]) for a in verts]), AND(*[OR(*[vec_eq(a, b) for b in verts]) for a in v2]))
                 tl = AND(AND(*[OR(*[vec_close(a, b, tol) for b in v2]) for a in verts]),
                          AND(*[OR(*[vec_close(a, b, tol) for b in verts]) for a in v2]))
-                ob.require("order_independent_polygon", exact=ex, tol=tl)
+                p2 = out["poly2"]
+                same2 = len(p2) == 3 and all((p2[0][k] is p2[1][k]) or (not is_symbolic(p2[0][k]) and not is_symbolic(p2[1][k])
+                                                                        and p2[0][k] == p2[1][k] == p2[2][k]) for k in range(3))
+                ob.require("order_independent_polygon" + ("_same_branch" if (same_branch or same2) else ""), exact=ex, tol=tl)
 
 
 def make(family, args):
